@@ -327,8 +327,40 @@ def build_torch_ns(env, ns=None):
             import contextlib
             return contextlib.nullcontext()
 
+    SALTED = z3.Function('salted_str_hash', cl.I, cl.I, cl.I, cl.I)
+    skeletons = {}
+
+    def proc_hash(obj):
+        """builtins.hash: str / bytes hashes are salted per interpreter process (PYTHONHASHSEED), so anything that
+        contains a string hashes to a value that is a function of the PROCESS as well; env.process numbers the simulated
+        invocations of the tool (an uninterrupted run, a killed run and its resume are three processes)"""
+        import builtins
+        syms = []
+
+        def skel(o):
+            if isinstance(o, (str, bytes)):
+                return ('s', o)
+            if isinstance(o, SInt):
+                syms.append(_z(o))
+                return ('sym', len(syms))
+            if isinstance(o, tuple):
+                return tuple(skel(x) for x in o)
+            return ('v', o)
+        sk = skel(obj)
+
+        def has_str(t):
+            return isinstance(t, tuple) and ((len(t) == 2 and t[0] == 's') or any(has_str(x) for x in t))
+        if not has_str(sk):
+            if syms:
+                raise symex.Unsupported('hash of a symbolic integer')
+            return builtins.hash(obj)
+        if len(syms) > 1:
+            raise symex.Unsupported('hash of several symbolic values')
+        sid = skeletons.setdefault(repr(sk), len(skeletons))
+        return SInt(SALTED(z3.IntVal(getattr(env, 'process', 0)), z3.IntVal(sid), syms[0] if syms else z3.IntVal(0)))
+
     ns.update(alias_factory_subclass_from_arg=factory, read_signal=read_signal, torch=TorchStub, PyTorchDither=PyDither,
-              PyTorchSTFTFrameComputer=PySTFT, PyTorchPostProcessorWrapper=PyPost)
+              PyTorchSTFTFrameComputer=PySTFT, PyTorchPostProcessorWrapper=PyPost, hash=proc_hash)
     return ns
 
 
